@@ -6,6 +6,9 @@ import tables_xml
 ALPHABET = [b'<', b'>', b'/', b'!', b'-', b'?', b'=', b'"', b"'", b'&', b';', b'#', b'a', b' ', b'\n']
 NAME_START = b'abcxyzABZ_:' + bytes([0xc3, 0xe2])
 NAME_CHARS = NAME_START + b'019-.'
+HIGH = bytes(range(0x80, 0x100))
+# UTF-8 letters whose bytes look like white space / separators in other encodings: a-grave (c3 a0), NEL (c2 85), LINE SEPARATOR, BOM, NBSP
+UTF8_PIECES = [b'\xc3\xa0', b'\xc2\x85', b'\xe2\x80\xa8', b'\xef\xbb\xbf', b'\xc2\xa0', b'\xc3\xa9', b'\xe2\x82\xac', b'\xf0\x9f\x98\x80', b'\xc4\x80']
 WS = [b' ', b' ', b'\n', b'\t', b'\r\n', b'\r', b'  ']
 
 
@@ -56,7 +59,7 @@ def position_in_message(msg):
     return None
 
 
-OUT_OPS = ('parse', 'str', 'rt', 'vdump', 'ent', 'parse2', 'pinto', 'rtinto', 'sparse', 'fload', 'fmiss', 'fsave', 'fsl')
+OUT_OPS = ('parse', 'parseok', 'parseg', 'str', 'rt', 'vdump', 'ent', 'parse2', 'pinto', 'rtinto', 'sparse', 'fload', 'fmiss', 'fsave', 'fsl')
 
 
 # ---- document generator -----------------------------------------------------------------------
@@ -71,6 +74,15 @@ class Gen:
     def name(self):
         r = self.r
         n = bytes([r.choice(NAME_START)]) + bytes(r.choice(NAME_CHARS) for _ in range(r.choice([0, 0, 1, 2, 5])))
+        k = r.random()
+        if k < 0.12:          # any byte >= 0x80 is a name byte (XmlSpec.name_char)
+            at = r.randrange(len(n) + 1)
+            n = n[:at] + bytes(r.choice(HIGH) for _ in range(r.choice([1, 1, 2, 3]))) + n[at:]
+        elif k < 0.22:        # real UTF-8 sequences
+            at = r.randrange(len(n) + 1)
+            n = n[:at] + r.choice(UTF8_PIECES) + n[at:]
+        elif k < 0.25:        # names may start with a digit, '-' or '.' (wf_name asks for name characters only)
+            n = bytes([r.choice(b'019-.')]) + n
         return n
 
     def comment(self):
@@ -197,6 +209,135 @@ class Gen:
         return out
 
 
+# ---- documents that are well formed BY CONSTRUCTION, and the same document with comments / PIs inserted ------------------
+# The class (a subset of XML 1.0 documents without DTD, plus what the property text adds: a comment wherever white space is
+# allowed, i.e. also between the tokens of a tag):
+#   document ::= gap (pi gap)* element gap            pi only in the decorated rendering
+#   element  ::= '<' name (S attr)* S? ('/>' | '>' content '</' name S? '>')
+#   attr     ::= name S? '=' S? quoted                value: no '<', no '&' except predefined / decimal references, no line break, not its own quote
+#   content  ::= (chardata | element)*                chardata: no '<', no '&' except references
+#   name     ::= name characters of XmlSpec.name_char (ASCII letters, digits, _ - . : and every byte >= 0x80), distinct attribute names
+# A document is produced as a list of pieces; ('g', must) marks a place where white space is allowed (must: required).
+# plain rendering: white space only; decorated rendering: the SAME white space plus comments (and PIs in front of the root).
+# A comment is never put directly behind a name (the name scanner ends at / > = or white space only: disclosed in
+# level_note) - behind a name the decorated gap starts with white space.
+class WF:
+    PI_COMMENT_OPENER = True
+    TEXT = b'abc xyz09.,:;=/!?#-_>"\'\t' + bytes([0x80, 0xa0, 0xc3, 0xa9, 0xff, 1, 0x7f])
+    REFS = [b'&lt;', b'&gt;', b'&amp;', b'&quot;', b'&apos;', b'&#65;', b'&#10;', b'&#233;', b'&#8364;', b'&#60;', b'&#38;']
+
+    def __init__(self, rng, maxdepth=3):
+        self.r = rng
+        self.g = Gen(rng)
+        self.maxdepth = maxdepth
+
+    def names(self, n):
+        out = []
+        while len(out) < n:
+            nm = self.g.name()
+            if nm not in out:
+                out.append(nm)
+        return out
+
+    def atoms(self, quote):
+        r = self.r
+        out = []
+        for _ in range(r.choice([0, 1, 1, 2, 3, 5])):
+            k = r.random()
+            if k < 0.6:
+                a = bytes(r.choice(self.TEXT) for _ in range(r.randrange(1, 6)))
+                if quote:
+                    a = a.replace(quote, b'q')
+                out.append(a)
+            elif k < 0.85:
+                out.append(r.choice(self.REFS))
+            elif quote is None:
+                out.append(r.choice([b'\n', b'\r\n', b'\r', b' \n ', b'  ']))
+            else:
+                out.append(r.choice([b' ', b'\t', b'  ']))
+        return out
+
+    def element(self, depth, pieces):
+        r = self.r
+        nm = self.g.name()
+        pieces.append(('l', b'<' + nm))
+        for k in self.names(r.choice([0, 0, 1, 1, 2, 3])):
+            q = r.choice([b'"', b"'"])
+            pieces += [('g', True), ('l', k), ('g', False), ('l', b'='), ('g', False), ('l', q + b''.join(self.atoms(q)) + q)]
+        pieces.append(('g', False))
+        if r.random() < 0.3:
+            pieces.append(('l', b'/>'))
+            return
+        pieces.append(('l', b'>'))
+        for _ in range(r.choice([0, 1, 1, 2, 3, 4]) if depth < self.maxdepth else r.choice([0, 1])):
+            if r.random() < 0.5 and depth < self.maxdepth:
+                pieces.append(('c', None))
+                self.element(depth + 1, pieces)
+            else:
+                at = self.atoms(None)
+                if not b''.join(at).strip(b' \t\r\n\x0b\x0c'):
+                    at.append(b'x')
+                for a in at:
+                    pieces += [('c', None), ('l', a)]
+        pieces += [('c', None), ('l', b'</' + nm), ('g', False), ('l', b'>')]
+
+    def pi(self):
+        r = self.r
+        if r.random() < 0.3:
+            return r.choice([b'<?xml version="1.0"?>', b'<?xml version="1.0" encoding="UTF-8"?>', b'<?xml version=\'1.0\' standalone="yes"?>'])
+        body = b''.join(r.choice([b'x', b' ', b'a="?"', b'?', b'>', b'<', b'\n', b'\r\n', b'\r', b'??', b'? >', b'-->'] + ([b'<!--'] if WF.PI_COMMENT_OPENER else []))
+                        for _ in range(r.randrange(0, 5)))
+        while b'?>' in body:
+            body = body.replace(b'?>', b'? >')
+        t = self.g.name()
+        return b'<?' + t + ((b' ' + body) if body else b'') + b'?>'
+
+    def pair(self):
+        """(plain, decorated)"""
+        r = self.r
+        pieces = [('p', None)]
+        self.element(0, pieces)
+        pieces.append(('e', None))
+        plain, deco = b'', b''
+        after_name = False
+        for kind, v in pieces:
+            if kind == 'l':
+                plain += v
+                deco += v
+                after_name = v[-1:] not in (b'>', b'=', b'"', b"'") and not v.startswith(b'&')
+                continue
+            if kind in ('g', 'c', 'e'):
+                ws = r.choice(WS) if (kind == 'g' and v) else (r.choice(WS) if r.random() < 0.25 else b'')
+                if kind == 'c' and r.random() < 0.7:
+                    ws = b''                  # most content positions: nothing in the plain document
+                plain += ws
+                d = ws
+                n = r.choice([0, 0, 1, 1, 2])
+                for _ in range(n):
+                    c = self.g.comment()
+                    where = r.random()
+                    if kind == 'g' and after_name and not d:
+                        d = r.choice(WS)
+                    if kind == 'g' and after_name:
+                        d = d + c + (r.choice(WS) if where < 0.5 else b'')      # behind a name: white space first
+                    elif where < 0.4:
+                        d = c + d
+                    elif where < 0.8:
+                        d = d + c
+                    else:
+                        d = d + c + r.choice(WS)
+                deco += d
+                after_name = False
+            else:                             # 'p': in front of the root
+                ws = r.choice([b'', b'', b'\n', b' ', b'\r\n'])
+                plain += ws
+                d = ws
+                for _ in range(r.choice([0, 1, 2, 2, 3])):
+                    d += r.choice([self.pi(), self.pi(), self.g.comment()]) + r.choice([b'', b'', b'\n', b' ', b'\r\n\t'])
+                deco += d
+        return plain, deco
+
+
 def mutate(rng, d):
     d = bytearray(d)
     for _ in range(rng.choice([1, 1, 2, 3])):
@@ -299,8 +440,12 @@ def variant_history(r, n):
             ops.append('vsub %d %d %d' % (i, j, r.randrange(3)))
         elif k < 0.91:
             ops.append('vsubmut %d %d %s' % (i, r.randrange(3), H(r.choice(names))))
-        elif k < 0.96:
+        elif k < 0.94:
             ops.append('velcopy %d %d' % (i, j))
+        elif k < 0.955:
+            ops.append('vassignsub %d %d %d' % (i, i if r.random() < 0.6 else j, r.randrange(3)))
+        elif k < 0.97:
+            ops.append('vassignsubm %d %d' % (i, r.randrange(3)))
         else:
             ops.append('vdel %d' % i)
         if r.random() < 0.35:
@@ -350,28 +495,71 @@ class C16(Check):
     def run_impl(self, cases, tag='impl'):
         # watchdog (2 s per case) AND a memory limit: the non-terminating parse of the unrepaired
         # code allocates without bound (RLIMIT_AS is unusable under ASan)
-        env = {'ASAN_OPTIONS': 'detect_leaks=0:abort_on_error=0:allocator_may_return_null=1:max_allocation_size_mb=1024:hard_rss_limit_mb=3000'}
-        return run_exe_on_cases(self.exes['impl'], cases, os.path.join(BUILD, self.id, 'run'), tag, is_impl=True,
-                                per_case_timeout=self.per_case_timeout, env=env)
+        # A tree on which (nearly) every case crashes or hangs costs one harness restart (and up to 2 s of watchdog) per case:
+        # a stream is given up after STREAM_CAP crashes / timeouts, and once RUN_CAP have been seen in the whole run every further
+        # stream after 6 more; the cases not run are marked `! notrun` (dropped by vf, ignored by judge).  After 20 watchdog
+        # hits the watchdog is 1 s (a healthy tree never gets there; the slowest case of the streams takes 0.3 s).
+        # symbolize=0: the report text is not needed (the kind comes from the summary line), symbolising costs 0.15-1 s per crash.
+        env = {'ASAN_OPTIONS': 'detect_leaks=0:abort_on_error=0:allocator_may_return_null=1:max_allocation_size_mb=1024:hard_rss_limit_mb=3000:symbolize=0'}
+        rundir = os.path.join(BUILD, self.id, 'run')
+        shrinking = tag.startswith('shr_')
+        res, crashes, i = [], {}, 0
+        seen, size = 0, 40
+        while i < len(cases):
+            cap = self.STREAM_CAP if self.crashes_total < self.RUN_CAP else 6
+            if seen >= cap and not shrinking:
+                res += [['! notrun'] for _ in cases[i:]]
+                break
+            # pieces of 40 cases, doubling up to 320 while nothing crashes, back to 40 after a crash: the cap is looked at often
+            # (vf itself stops one call only after 400 restarts)
+            chunk = cases[i:i + size]
+            wd = self.per_case_timeout if self.timeouts_total < 20 else 1
+            r, c = run_exe_on_cases(self.exes['impl'], chunk, rundir, tag, is_impl=True, per_case_timeout=wd, env=env)
+            res += r
+            for k, v in c.items():
+                crashes[i + k] = v
+            seen += len(c)
+            self.timeouts_total += sum(1 for v in c.values() if v[0] == 'timeout')
+            if not shrinking:
+                self.crashes_total += len(c)
+            i += size
+            size = 40 if c else min(320, size * 2)
+        return res, crashes
+
+    STREAM_CAP = 150
+    RUN_CAP = 150
+    crashes_total = 0
+    timeouts_total = 0
+
+    def shrink(self, case, pred, budget=400):
+        # every probe of a hanging case costs the watchdog: a small budget on a tree that crashes / hangs a lot
+        return Check.shrink(self, case, pred, budget=(30 if self.crashes_total > 20 else budget))
 
     # -- oracle -------------------------------------------------------------------------------
     def judge(self, cases, impl_obs, spec_obs):
         fails = Check.judge(self, cases, impl_obs, spec_obs)
         # one report per kind of failure of the reuse ops: a constant prefix of >= 80 characters, the variable part behind it
-        WHY = {'fload': 'fload: Xml::load / Xml::Parser::load of a file does not answer like parse on the bytes of the file '
+        EXT = 'extension beyond the property text (the file API is not named there; judged as parse / toString through a file): '
+        WHY = {'fload': EXT + 'fload: Xml::load / Xml::Parser::load of a file does not answer like parse on the bytes of the file '
                         '(first field 1 = same answer as parse; then the answer): ',
-               'fmiss': 'fmiss: load of a file that does not exist must return false and leave the target Element as it was (failure as reported | target afterwards): ',
-               'fsl': 'fsl: Xml::save then Xml::Parser::load of the same file does not give back the same names, attributes, text and nesting: ',
+               'fmiss': EXT + 'fmiss: load of a file that does not exist must return false and leave the target Element as it was (failure as reported | target afterwards): ',
+               'fsl': EXT + 'fsl: Xml::save then Xml::Parser::load of the same file does not give back the same names, attributes, text and nesting: ',
                'parse2': 'parse2: one Parser object used for two texts (flag 1: also one target Element) does not answer like a fresh Parser with a fresh Element '
                          '(first field 1 = same answers; then the two answers): ',
                'pinto': 'pinto: parse into an Element that already holds a name, attributes or content does not answer like parse into a fresh Element '
                         '(first field 1 = same answer; then the answer): ',
+               'parseok': 'parseok: a document that is well formed by construction (element, attributes, character data, references; comments where white space is '
+                          'allowed, processing instructions in front of the root) is not accepted: ',
+               'parseg': 'parseg: a document and the same document with comments inserted where white space is allowed (and processing instructions in front of the root) '
+                         'must both be accepted and give the same names, attributes, nesting and character data (first field 1; then the two answers): ',
                'rtinto': 'rtinto: toString then parse into an Element that already holds the tree does not give back the same names, attributes, text and nesting: '}
         for n, (i, k, reason) in enumerate(fails):
             outs = [l for l in cases[i] if l.split(' ')[0] in OUT_OPS]
             kind = outs[k].split(' ')[0] if k < len(outs) else ''
             if kind in WHY:
                 fails[n] = (i, k, WHY[kind] + reason)
+            elif kind == 'fsave':
+                fails[n] = (i, k, (EXT + 'fsave: the answer of the implementation is not the one the specification expects for this operation: ').ljust(84) + reason)
             elif kind:
                 fails[n] = (i, k, ('%s: the answer of the implementation is not the one the specification expects for this operation: ' % kind).ljust(84) + reason)
         fails.sort(key=lambda f: sum(len(l) for l in cases[f[0]]))
@@ -393,8 +581,14 @@ class C16(Check):
                 if a[0] == 'str' and t[0] == 'str':
                     last_str = unhex(t[1])
                 found = []        # (text, line, column)
-                if a[0] == 'parse' and t[0] == 'err':
+                if a[0] in ('parse', 'parseok') and t[0] == 'err':
                     found.append((unhex(a[1]), t[1], t[2]))
+                elif a[0] == 'parseg':
+                    secs = line.split(' | ')
+                    for text, sec in zip(a[1:3], secs[1:3]):
+                        u = sec.split(' ')
+                        if u[0] == 'err':
+                            found.append((unhex(text), u[1], u[2]))
                 elif a[0] in ('rt', 'rtinto') and len(t) > 1 and t[1] == 'err' and last_str is not None:
                     found.append((last_str, t[2], t[3]))
                 elif a[0] == 'parse2':
@@ -443,6 +637,8 @@ class C16(Check):
         kinds = {l.split(' ')[0] for l in case}
         if 'ent' in kinds:
             return any(x.startswith('ent ') and not x.startswith('ent err') for x in obs)
+        if kinds & {'parseg', 'parseok'}:
+            return any(len(l) >= 24 for l in case)
         if kinds & {'parse2', 'pinto', 'sparse', 'fload'}:
             return any(len(l) >= 24 for l in case)
         if kinds & {'fmiss', 'fsave', 'fsl'}:
@@ -455,7 +651,7 @@ class C16(Check):
         if 'rt' in kinds:
             return sum(1 for l in case if l.split(' ')[0] in ('open', 'attr', 'text')) >= 3
         if 'vdump' in kinds:
-            return (any(l.startswith(('vcopy', 'vassign', 'velcopy', 'vchild', 'vsub ')) for l in case)
+            return (any(l.startswith(('vcopy', 'vassign', 'velcopy', 'vchild', 'vsub ')) for l in case)    # vassign also matches vassignsub / vassignsubm
                     and any(l.startswith(('vname', 'vattr', 'vsubmut', 'vsettext', 'vchild', 'vwriteheld')) for l in case))
         return False
 
@@ -547,14 +743,26 @@ class C16(Check):
         mk = [['velem 0 61'], ['vtext 0 61'], ['vnull 0'], ['velem 0 61', 'velem 1 62', 'vchild 0 1'], ['velem 0 61', 'vtext 1 62', 'vchild 0 1']]
         share = [[], ['vcopy 1 0'], ['vcopy 1 0', 'vcopy 2 1'], ['velem 3 78', 'vchild 3 0'], ['velcopy 4 0'], ['vsub 5 0 0']]
         act = [['vname 0 7a'], ['vattr 0 6b 76'], ['vchild 0 0'], ['vchild 0 1'], ['vsubmut 0 0 7a'], ['vsettext 0 7a'], ['vassign 0 0'], ['vassign 0 1'],
-               ['vsub 0 0 0'], ['vdel 0'], ['vnull 0'], ['velcopy 0 0'], ['vcopy 0 0'], ['vsubmut 3 0 79'], ['vsub 1 3 0', 'vname 1 77']]
+               ['vsub 0 0 0'], ['vdel 0'], ['vnull 0'], ['velcopy 0 0'], ['vcopy 0 0'], ['vsubmut 3 0 79'], ['vsub 1 3 0', 'vname 1 77'],
+               ['vassignsub 0 0 0'], ['vassignsubm 0 0'], ['vdel 1', 'vassignsub 0 0 0'], ['vdel 1', 'vassignsubm 0 0'], ['vassignsub 1 0 0'], ['vassignsub 0 3 0'],
+               ['vassignsub 3 3 0'], ['vsub 1 0 0', 'vassign 1 0']]
         for a in mk:
             for b in share:
                 for c in act:
                     cases.append(a + b + ['vdump'] + c + ['vdump'] + ['vname 1 71', 'vdump', 'vdel 0', 'vdump'])
+        # a node replaced by a copy of its own child / grandchild (the right-hand side of operator= lives inside the value that is released):
+        # chains a(b(c(d))) whose inner blocks are held by the chain alone, or also by another slot
+        for keep in ([], ['vcopy 4 1'], ['vcopy 4 0'], ['vsub 4 0 0']):
+            chain = ['velem 0 61', 'velem 1 62', 'velem 2 63', 'vtext 3 74', 'vchild 2 3', 'vchild 1 2', 'vattr 1 6b 76', 'vchild 0 1'] + keep + ['vdel 1', 'vdel 2', 'vdel 3']
+            for hoist in (['vassignsub 0 0 0'], ['vassignsubm 0 0'], ['vassignsub 0 0 0', 'vassignsub 0 0 0'], ['vassignsubm 0 0', 'vassignsubm 0 0', 'vassignsubm 0 0'],
+                          ['vsub 5 0 0', 'vassignsub 5 5 0', 'vassignsub 0 5 0'], ['vcopy 5 0', 'vassignsubm 5 0', 'vassignsub 0 0 0'],
+                          ['vsub 5 0 0', 'vassign 5 0'], ['vsub 5 0 0', 'vassign 0 5']):
+                cases.append(chain + ['vdump'] + hoist + ['vdump', 'vname 0 7a', 'vdump', 'vdel 0', 'vdump'])
         out.append(Stream('handles_directed', cases, exhaustive=True,
                           note='every combination of {element, text, null, element with element child, element with text child} x '
-                               '{unshared, copied once/twice, nested in another element, element copy, content item copied out} x 15 writes'))
+                               '{unshared, copied once/twice, nested in another element, element copy, content item copied out} x 23 writes '
+                               '(incl. assignment of a Variant from its own content item, of a content item copied out from its ancestor); '
+                               'chains a(b(c(t))) hoisted once, twice, three times, inner blocks held by the chain alone or by another slot'))
 
         # 9b. a reference obtained from toElement() and kept by the caller (audit finding 3)
         cases = []
@@ -607,6 +815,44 @@ class C16(Check):
         out.append(Stream('embedded_nul', cases, note='a document cut at a random offset, and the same bytes followed by NUL + more text: same result'))
         out += self.streams_reuse(th, rng)
         out += self.streams_wide(th, rng)
+        out += self.streams_accept(th, rng)
+        return out
+
+    def streams_accept(self, th, rng):
+        """the clauses without a round trip: documents that MUST be accepted, comments / PIs that must not change the tree; name bytes"""
+        out = []
+        cases = []
+        hand = [(b'<a/>', b'<?xml version="1.0"?><?style x?><a/>'), (b'<a k="v"/>', b'<!--c---><a k="v"/>'), (b'<a>text</a>', b'<a><!-- note -->text</a>'),
+                (b'<a><b/>tail</a>', b'<a><b/><!-- c -->tail</a>'), (b'<p>one<b>two</b>three</p>', b'<p>one<!--x--><b>two<!--y--></b><!--z-->three</p>'),
+                (b'<p>onetwo</p>', b'<p>one<!-- c -->two</p>'), (b'<a k="v" l="w"/>', b'<a <!--1-->k <!--2-->= <!--3-->"v" <!--4-->l="w" <!--5-->/>'),
+                (b'<a></a>', b'<?a?><?b ??><?c\n?>\n<!----><!-----><a><!--<a>--></a <!---->>'), (b'<a>x</a>', b'<a>x</a><!--t-->'),
+                (b'<a> x </a>', b'<a> <!--c--> x <!--d--> </a>'), (b'<a>&lt;&amp;</a>', b'<a>&lt;<!--&-->&amp;</a>'),
+                (b'<a>\r\nx\r\n</a>', b'<a>\r\n<!--\r\n-->x\r<!--\r-->\n</a>'), (b'<r><a/><b/></r>', b'<?p?><!--c--><?q?><r><!--1--><a/><!--2--><b/><!--3--></r>')]
+        for a, b in hand:
+            cases.append(['parseok ' + H(a), 'parseok ' + H(b), 'parseg %s %s' % (H(a), H(b))])
+        for _ in range(5000 if th else 900):
+            w = WF(rng, maxdepth=rng.choice([0, 1, 2, 3]))
+            a, b = w.pair()
+            cases.append(['parseg %s %s' % (H(a), H(b))])
+        out.append(Stream('accept', cases, note='documents well formed by construction (class WF of checks/C16.py) must be accepted; the same document with comments inserted where '
+                                                'white space is allowed - between the tokens of a tag, anywhere in content, also in the middle of character data and directly in '
+                                                'front of it - and with processing instructions and comments in front of the root must be accepted too and give the same names, '
+                                                'attributes, nesting and character data (white space apart)'))
+        # every name byte: alone, first, last, in an element name and in an attribute name, serialised and parsed back, and inside a document
+        cases = []
+        name_bytes = [b for b in range(1, 256) if (65 <= b <= 90) or (97 <= b <= 122) or (48 <= b <= 57) or b in b'_-.:' or b >= 128]
+        for b in name_bytes:
+            for nm in (bytes([b]), b'a' + bytes([b]), bytes([b]) + b'a', b'a' + bytes([b]) + b'z'):
+                cases.append(['open ' + H(nm), 'attr %s 76' % H(b'k' + bytes([b])), 'attr %s 77' % H(nm), 'open ' + H(nm), 'close', 'str', 'rt'])
+            nm = b'n' + bytes([b]) + b'e'
+            cases.append(['parseok ' + H(b'<' + nm + b' ' + nm + b'="v"><' + nm + b'/>t</' + nm + b'>')])
+        for u in UTF8_PIECES:
+            for nm in (u, b'caf' + u, u + b'x', u + u):
+                cases.append(['open ' + H(nm), 'attr %s 76' % H(b'prix' + u), 'open ' + H(nm), 'text 74', 'close', 'str', 'rt'])
+                cases.append(['parseok ' + H(b'<' + nm + b' ' + nm + b'="v"><' + nm + b'/>t</' + nm + b'>')])
+        out.append(Stream('name_bytes', cases, exhaustive=True,
+                          note='every name byte of XmlSpec.name_char (ASCII letters, digits, _ - . : and each of the 128 bytes >= 0x80) alone / first / last / inside an element '
+                               'name and an attribute name: serialised and parsed back, and in a document that must be accepted; UTF-8 sequences holding a0, 85, a8'))
         return out
 
     def streams_wide(self, th, rng):
@@ -745,20 +991,25 @@ C16.level_text = (
     '(repair 07 clears the target), so the error position of a second parse lies inside the second text; (2) the white-space scanner steps over '
     'every comment, the tokenizer and the whole descent depend on the remaining text only (up to recorded positions), hence any mix of white space '
     'and comments in front of any token yields the same token, a gap that begins with a comment in front of text / a child / the end tag leaves the '
-    'content loop\'s answer unchanged at any depth, parse (gap ++ d) and parse d agree; a processing instruction <?a?> in front of the document, '
-    'for bodies a without ? CR LF, is skipped: parse (<?a?> ++ d) and parse d agree (same tree up to positions / same message); '
+    'content loop\'s answer unchanged at any depth, parse (gap ++ d) and parse d agree; a processing instruction <?a?> in front of the document '
+    'is skipped for EVERY body a (any byte but NUL - also ?, CR, LF, a comment opener; it ends at its first ?>; repair 08), and so is any '
+    'mix of white space, comments and processing instructions in front of the root: parse (prolog ++ d) and parse d agree (same tree up '
+    'to positions / same message), in particular they have the same names, attributes, nesting and character data (XmlSpec.squash, the '
+    'relation the check judges on the implementation); '
     '(3) unescape (escape v) = v for all NUL-free v, predefined entities and decimal references '
     'decode as XML says, attribute values and text nodes are read back exactly, and parse (toString e) = e up to recorded positions for EVERY '
     'tree with well-formed names, NUL-free attribute values, distinct attribute names (HashMap keys) and non-blank non-adjacent text; (4) for EVERY '
     'history of handle operations each reference count equals the number of Variant objects pointing to the block and the copy-on-write heap refines a '
-    'value store, so an operation changes its target slot only; with a reference obtained from toElement() and kept by the caller (ops vhold / '
+    'value store, so an operation changes its target slot only - also an assignment whose right-hand side is a content item of the assigned '
+    'Variant itself (node = node.toElement().content[k]): the slot then holds the item\'s value and the counts stay exact; with a reference obtained from toElement() and kept by the caller (ops vhold / '
     'vwriteheld) the same holds for every history in which no such reference is used after a later copy of the Variant (at the write no other '
     'Variant shares the block), the counts stay exact in every history, and the statement is refuted with a witness for a reference kept across a copy; '
     '(5) the file based entry points Xml::load / Xml::Parser::load / Xml::save are parse after reading and writing after toString with the file '
     'system as an input: for every content (1) holds of load, a missing file gives false and leaves the target untouched, save then load gives the '
     'tree back.  The model is tied to the code by running the extracted model, the extracted '
     'spec and the ASan/UBSan build of the working tree on the same cases (parse results with positions, error line/column/message, serialised '
-    'bytes, re-parsed trees, answers of a reused Parser / non-empty target / the static wrappers, every value and every reference count after handle operations - '
+    'bytes, re-parsed trees, for documents that are well formed by construction the two answers on the document and on the document with comments / '
+    'processing instructions inserted and whether they agree up to gaps, answers of a reused Parser / non-empty target / the static wrappers, every value and every reference count after handle operations - '
     'also after writes through a kept reference to a shared block -, the bytes Xml::save leaves in a scratch file under build/C16, the answers of load on files written there, on a '
     'missing file and of save on an unwritable path).')
 C16.level_note = (
@@ -770,10 +1021,17 @@ C16.level_note = (
     '(up to 1000) is validated by the depth-1000 cases only. Comments: the clause is proved at the tokenizer (any gap in front of any token), at '
     'parseText / the content loop (a gap that begins with a comment, followed by something that does not begin with white space) and in front of '
     'the document; the composition of the content-loop theorem into one statement about a comment at an arbitrary place of a whole document is '
-    'not stated. The code\'s behaviour next to text is asymmetric and the model mirrors it: white space behind a comment in front of text is '
+    'not stated: for comments INSIDE the root element the whole-document reading is judged on the implementation only (stream accept, op parseg: '
+    'a document that is well formed by construction - class WF of checks/C16.py: a subset of XML 1.0 without DTD, attribute values without '
+    'literal line breaks - and the same document with comments inserted wherever white space is allowed, between the tokens of a tag, anywhere '
+    'in content, in the middle of character data and directly in front of it, plus processing instructions and comments in front of the root; '
+    'the spec line demands that both are accepted and agree in names, attributes, nesting and, between two child elements, the concatenated '
+    'character data without white-space bytes - the text does not say which white space next to a comment is kept, the code keeps what stands in '
+    'front and drops what stands behind). A comment is never inserted directly behind a name (see below). The code\'s behaviour next to text is asymmetric and the model mirrors it: white space behind a comment in front of text is '
     'swallowed with the comment, white space in front of such a comment becomes a text node of its own (Example ex_space_around_comment); a comment '
-    'glued to the end of a name belongs to the name (names end at / > = or white space only). The processing-instruction theorem covers bodies '
-    'without ?, CR, LF; the line-break-in-body path (fix 03) is covered by an Example and by the correspondence streams only. '
+    'glued to the end of a name belongs to the name (names end at / > = or white space only). The processing-instruction theorem covers every '
+    'body (xml_any_processing_instruction_before_document; the old restriction to bodies without ?, CR, LF is gone with repair 08, which the '
+    'acceptance judge found: the loop called skipSpace inside the instruction and a comment opener behind a ? or a line break ran to the next -->). '
     'Character references: only decimal ones are decoded (theorem xml_numeric_reference); a hexadecimal reference such as &#x41; stays literal '
     'text, &#55296; yields the three bytes ed a0 80 (a surrogate code point is not rejected), &#0; puts a 0 byte into the String, a value '
     '>= 1114112 decodes to nothing - all mirrored by the model, none judged by a theorem (the property text does not say). '
@@ -795,13 +1053,25 @@ C16.level_note = (
     'In-place writes of a nested content item redirect slots only (a content list of another block pointing to it is excluded by the proved '
     'count invariant). Element.line/column of elements created by toElement() are uninitialised in the code and not compared. '
     'Xml::Parser::parse(const char*, Element&) is declared but defined nowhere (not callable, not driven). '
-    'Scope of the spec oracle (what a failing input is claimed for): termination without a sanitizer report, success / failure where the spec names it, '
+    'The flags "same answer as a fresh Parser / fresh Element / parse on the bytes of the file" (parse2, pinto, fload) compare result kind, line, column and the '
+    'tree - not the message. The file API (fload / fmiss / fsave / fsl) is an EXTENSION beyond the property text, which names parse, toString and '
+    'copies only: its failing inputs say so in their first words. pinto also prints the Element the target was copied from (it must still hold the tree). '
+    'Handles: vassignsub i j k is *slot[i] = <k-th content item of slot j> through operator= with a reference into slot j\'s element (the value step of VSub; '
+    'j = i: the right-hand side is released by the assignment), vassignsubm i k the same behind a mutable toElement() of slot i (driver: touch, then VSub i i k). '
+    'NOT driven: assigning to a content item of an element the Variant that owns that element (Element& e = v.toElement(); e.content.front() = v;). The lazy copy '
+    'stores a reference to the block inside the block itself: a reference cycle, Xml::toString(v.toElement()) then overflows the stack (observed on the unchanged '
+    'tree) - the same design limitation as the open finding of C07 (a Variant stored into its own payload); value semantics would put a copy of the OLD value of v '
+    'there. The model\'s heap (children are older than their block) has no such state; proposed as an open known finding in reports/C16.md, no oracle claims it. '
+    'Scope of the spec oracle (what a failing input is claimed for): termination without a sanitizer report, success / failure where the spec names it '
+    '(documents well formed by construction must be accepted), '
     'names / attributes / text / nesting after a round trip, the values of the slots after handle operations, and that a reported line and column are the '
     'coordinates of an offset of the text. Model-only details (compared for correspondence, never the ground of a failing input): the WORDING of error '
     'messages, reference counts and which blocks are shared (a library that copies eagerly satisfies "copies are independent" by construction and differs '
     'from the model in the count dump only). For the static wrappers, whose only report is the text in Error::getErrorString(), line and column are read '
     'out of that text independently of its wording (position_in_message: the numbers behind the words line and column, else the first two free-standing '
     'integers); a text from which no position can be read is not judged, except the harness\'s own sentinel (the wrapper returned false and reported nothing). '
+    'A tree on which most cases crash or hang: a stream is given up after 150 crashes / watchdog hits, later streams after 6 once 150 were seen in the run, the '
+    'watchdog drops to 1 s after 20 hits, shrinking gets 30 probes (the report is made from what ran). '
     'The per-case watchdog (2 s) times the library: the harness builds trees in place (linear in the tree size whatever a Variant copy costs) and makes one '
     'copy of the whole tree per serialise / parse-into operation; depth-1000 chains cost 0.04 s under ASan with shared and with eagerly copied blocks alike.')
 C16.rule = (
@@ -809,11 +1079,12 @@ C16.rule = (
     're-parsed, or a history of Variant handle operations with dumps, or one entity reference; generators aim at the case splits of the proofs: '
     'comments between all tokens and next to text, all three line-break forms, processing instructions, numeric references at the UTF-8 and '
     '32/64-bit boundaries, quotes/ampersands/line breaks in values, texts whose first byte starts another token (look-ahead fails), nesting '
-    'depth 1000, NUL inside the buffer, every byte string of length <= 3 (4 thorough) over a 15-letter alphabet bare and in 5 contexts, and for '
-    'handles every combination of block kind x sharing shape x write, the same with a reference taken before / after the sharing and kept across 15 kinds of '
+    'depth 1000, NUL inside the buffer, documents well formed by construction with and without inserted comments / processing instructions, every name byte '
+    '(each of the 128 bytes >= 0x80, UTF-8 sequences) in element and attribute names, every byte string of length <= 3 (4 thorough) over a 15-letter alphabet bare and in 5 contexts, and for '
+    'handles every combination of block kind x sharing shape x write (incl. assignment from the own content item, chains hoisted one to three levels), the same with a reference taken before / after the sharing and kept across 15 kinds of '
     'intermediate operations; file cases = load of a table of failing / succeeding texts, generated and mutated documents (also with a 0 byte, also 64 KiB) written to '
     'a scratch file, a missing file, save to a writable / unwritable path, save then load of generated trees. Non-trivial: a parse that succeeds, or fails beyond line 1 column 1 on a '
-    'document of >= 8 bytes; a round trip of a tree with >= 3 nodes/attributes; a handle history that both shares (copy/assign/child/sub) and '
+    'document of >= 8 bytes; a round trip of a tree with >= 3 nodes/attributes; a well-formed-document case whose op line has >= 24 characters; a handle history that both shares (copy/assign/child/sub) and '
     'writes (name/attr/submut/settext/child/write through a kept reference); an entity case that parses; a file case whose text op line has >= 24 characters or whose tree '
     'has >= 2 nodes/attributes. distinct = distinct op text.')
 C16.assumptions = [
